@@ -28,53 +28,77 @@ def isPureForL (rs : List String) : List Expr → Bool
   | e :: es => isPureFor rs e && isPureForL rs es
 end
 
+/-- names the compiler makes up for the bindings of evaluated given arguments: `_p…` -/
+def isReserved (x : String) : Bool :=
+  match x.toList with
+  | '_' :: 'p' :: _ => true
+  | _ => false
+
+/-- a given argument that is bound beforehand must not be one of the forms the real emitter leaves
+inside the closure but the model does not treat as inert (a lambda, a partial application): those are
+outside the fragment -/
+def boundOK : Expr → Bool
+  | .lam _ _ => false
+  | .call _ arity args => !(args.length < arity)
+  | _ => true
+
+/-- the given arguments of a partial application under `bind`: the inert ones are not captured by the
+closure parameters, the others are of a bindable form -/
+def paOK (rs : List String) : List Expr → Bool
+  | [] => true
+  | a :: as => (if isInert a then isPureFor rs a else boundOK a) && paOK rs as
+
 mutual
-def wfE : Expr → Bool
+def wfE (bind : Bool) : Expr → Bool
   | .lit _ => true
-  | .var _ => true
-  | .prim _ args => wfL args
-  | .and a b => wfE a && wfE b
-  | .or a b => wfE a && wfE b
-  | .ite c t f => wfE c && wfB t && wfB f
+  | .var x => !isReserved x
+  | .prim _ args => wfL bind args
+  | .and a b => wfE bind a && wfE bind b
+  | .or a b => wfE bind a && wfE bind b
+  | .ite c t f => wfE bind c && wfB bind t && wfB bind f
   | .call _ arity args =>
-    wfL args && (if args.length < arity then isPureForL (restNames (arity - args.length)) args else true)
-  | .callv f args => wfE f && wfL args
-  | .lam _ b => wfB b
-  | .pipe a f => wfE a && wfE f
-  | .hof _ f args => wfE f && wfL args
-  | .matchE t arms => wfE t && wfArms arms
-  | .matchSE t arms => wfE t && wfSArms arms
-def wfL : List Expr → Bool
+    wfL bind args &&
+      (if args.length < arity then
+        (if bind then paOK (restNames (arity - args.length)) args
+         else isPureForL (restNames (arity - args.length)) args)
+       else true)
+  | .callv f args => wfE bind f && wfL bind args
+  | .lam _ b => wfB bind b
+  | .pipe a f => wfE bind a && wfE bind f
+  | .hof _ f args => wfE bind f && wfL bind args
+  | .matchE t arms => wfE bind t && wfArms bind arms
+  | .matchSE t arms => wfE bind t && wfSArms bind arms
+def wfL (bind : Bool) : List Expr → Bool
   | [] => true
-  | e :: es => wfE e && wfL es
-def wfB : Body → Bool
-  | .mk ss tail => wfSs ss && wfT tail
-def wfT : Tail → Bool
-  | .ret e => wfE e
-  | .matchT t arms => wfE t && wfArms arms
-  | .matchST t arms => wfE t && wfSArms arms
-def wfSs : List Stmt → Bool
+  | e :: es => wfE bind e && wfL bind es
+def wfB (bind : Bool) : Body → Bool
+  | .mk ss tail => wfSs bind ss && wfT bind tail
+def wfT (bind : Bool) : Tail → Bool
+  | .ret e => wfE bind e
+  | .matchT t arms => wfE bind t && wfArms bind arms
+  | .matchST t arms => wfE bind t && wfSArms bind arms
+def wfSs (bind : Bool) : List Stmt → Bool
   | [] => true
-  | s :: ss => wfS s && wfSs ss
-def wfS : Stmt → Bool
-  | .let1 _ e => wfE e
-  | .let2 _ _ e => wfE e
-  | .exec e => wfE e
-  | .ifonly c b => wfE c && wfB b
-def wfArms : List Arm → Bool
+  | s :: ss => wfS bind s && wfSs bind ss
+def wfS (bind : Bool) : Stmt → Bool
+  | .let1 _ e => wfE bind e
+  | .let2 _ _ e => wfE bind e
+  | .exec e => wfE bind e
+  | .ifonly c b => wfE bind c && wfB bind b
+def wfArms (bind : Bool) : List Arm → Bool
   | [] => true
-  | .mk _ _ b :: rest => wfB b && wfArms rest
-def wfSArms : List SArm → Bool
+  | .mk _ _ b :: rest => wfB bind b && wfArms bind rest
+def wfSArms (bind : Bool) : List SArm → Bool
   | [] => true
-  | .mk _ b :: rest => wfB b && wfSArms rest
+  | .mk _ b :: rest => wfB bind b && wfSArms bind rest
 end
 
-def wfProg (P : Prog) : Prop := ∀ d ∈ P, wfB d.body = true
+def wfProg (bind : Bool) (P : Prog) : Prop := ∀ d ∈ P, wfB bind d.body = true
 
 /-- the decision procedure the oracle runs on every program -/
-def wfProgB (P : Prog) : Bool := P.all (fun d => wfB d.body)
+def wfProgB (bind : Bool) (P : Prog) : Bool := P.all (fun d => wfB bind d.body)
 
-theorem wfProgB_iff (P : Prog) : wfProgB P = true ↔ wfProg P := by
+theorem wfProgB_iff (bind : Bool) (P : Prog) : wfProgB bind P = true ↔ wfProg bind P := by
   simp [wfProgB, wfProg, List.all_eq_true]
 
 /-! ### the relation -/
@@ -113,36 +137,43 @@ def isGPureForL (rs : List String) : List GExpr → Bool
 end
 
 mutual
-inductive VRel : SVal → GVal → Prop where
-  | fo (v : FO) : VRel (.fo v) (.fo v)
+inductive VRel (bind : Bool) : SVal → GVal → Prop where
+  | fo (v : FO) : VRel bind (.fo v) (.fo v)
   | clo {ps : List String} {b : Body} {env : Env} {genv : GEnv} :
-      wfB b = true → ERel env genv → VRel (.clo ps b env) (.clo ps (lowerB b) genv)
+      wfB bind b = true → ERel bind env genv → VRel bind (.clo ps b env) (.clo ps (lowerB bind b) genv)
   | pap {f : String} {arity : Nat} {vs : List SVal} {ges : List GExpr} {gvs : List GVal} {genv : GEnv} :
-      {k : Nat} → vs.length < arity → optList (gpureEvalN k genv) ges = some gvs → VRels vs gvs →
+      {k : Nat} → vs.length < arity → optList (gpureEvalN k genv) ges = some gvs → VRels bind vs gvs →
       isGPureForL (restNames (arity - vs.length)) ges = true →
-      VRel (.pap f arity vs)
+      VRel bind (.pap f arity vs)
         (.clo (restNames (arity - vs.length))
           (.mk [] (.ret (.callFn f (ges ++ (restNames (arity - vs.length)).map GExpr.var)))) genv)
-inductive VRels : List SVal → List GVal → Prop where
-  | nil : VRels [] []
-  | cons {v : SVal} {gv : GVal} {vs : List SVal} {gvs : List GVal} : VRel v gv → VRels vs gvs → VRels (v :: vs) (gv :: gvs)
-inductive ERel : Env → GEnv → Prop where
-  | nil : ERel [] []
-  | cons {x : String} {v : SVal} {gv : GVal} {env : Env} {genv : GEnv} : VRel v gv → ERel env genv → ERel ((x, v) :: env) ((x, gv) :: genv)
+inductive VRels (bind : Bool) : List SVal → List GVal → Prop where
+  | nil : VRels bind [] []
+  | cons {v : SVal} {gv : GVal} {vs : List SVal} {gvs : List GVal} : VRel bind v gv → VRels bind vs gvs → VRels bind (v :: vs) (gv :: gvs)
+/-- related environments; the Go-core side may hold extra bindings of reserved names (the `_p…` of
+evaluated given arguments), which no source variable refers to -/
+inductive ERel (bind : Bool) : Env → GEnv → Prop where
+  | nil : ERel bind [] []
+  | cons {x : String} {v : SVal} {gv : GVal} {env : Env} {genv : GEnv} :
+      VRel bind v gv → ERel bind env genv → ERel bind ((x, v) :: env) ((x, gv) :: genv)
+  | extra {y : String} {gv : GVal} {env : Env} {genv : GEnv} :
+      isReserved y = true → ERel bind env genv → ERel bind env ((y, gv) :: genv)
 end
 
-theorem VRel.toFO {v : SVal} {gv : GVal} (h : VRel v gv) : v.toFO = gv.toFO := by
+variable {bind : Bool}
+
+theorem VRel.toFO {v : SVal} {gv : GVal} (h : VRel bind v gv) : v.toFO = gv.toFO := by
   cases h <;> rfl
 
-theorem VRel.fo_left {x : FO} {gv : GVal} (h : VRel (.fo x) gv) : gv = .fo x := by
+theorem VRel.fo_left {x : FO} {gv : GVal} (h : VRel bind (.fo x) gv) : gv = .fo x := by
   cases h; rfl
 
-theorem VRels.length {vs : List SVal} {gvs : List GVal} (h : VRels vs gvs) : vs.length = gvs.length := by
+theorem VRels.length {vs : List SVal} {gvs : List GVal} (h : VRels bind vs gvs) : vs.length = gvs.length := by
   induction vs generalizing gvs with
   | nil => cases h; rfl
   | cons v vs ih => cases h with | cons _ ht => simp [ih ht]
 
-theorem VRels.toFOs {vs : List SVal} {gvs : List GVal} (h : VRels vs gvs) : toFOs vs = gtoFOs gvs := by
+theorem VRels.toFOs {vs : List SVal} {gvs : List GVal} (h : VRels bind vs gvs) : toFOs vs = gtoFOs gvs := by
   induction vs generalizing gvs with
   | nil => cases h; rfl
   | cons v vs ih =>
@@ -153,57 +184,64 @@ theorem VRels.toFOs {vs : List SVal} {gvs : List GVal} (h : VRels vs gvs) : toFO
       cases gv.toFO <;> cases gtoFOs gvs <;> rfl
 
 theorem VRels.append {as : List SVal} {gas : List GVal} {bs : List SVal} {gbs : List GVal}
-    (h1 : VRels as gas) (h2 : VRels bs gbs) : VRels (as ++ bs) (gas ++ gbs) := by
+    (h1 : VRels bind as gas) (h2 : VRels bind bs gbs) : VRels bind (as ++ bs) (gas ++ gbs) := by
   induction as generalizing gas with
   | nil => cases h1; exact h2
   | cons a as ih => cases h1 with | cons hv ht => exact .cons hv (ih ht)
 
-theorem ERel.lookup {env : Env} {genv : GEnv} (h : ERel env genv) {x : String} {v : SVal}
-    (hl : lookup env x = some v) : ∃ gv, lookup genv x = some gv ∧ VRel v gv := by
-  induction env generalizing genv with
-  | nil => simp [Folang.Sem.lookup] at hl
-  | cons p env ih =>
+theorem lookup_cons_ne {α : Type} {y x : String} {a : α} {l : List (String × α)} (h : (y == x) = false) :
+    lookup ((y, a) :: l) x = lookup l x := by
+  simp [lookup, List.find?_cons, h]
+
+theorem lookup_cons_eq {α : Type} {y x : String} {a : α} {l : List (String × α)} (h : (y == x) = true) :
+    lookup ((y, a) :: l) x = some a := by
+  simp [lookup, List.find?_cons, h]
+
+/-- a variable that is not a reserved name has related values on both sides -/
+theorem ERel.lookup {env : Env} {genv : GEnv} (h : ERel bind env genv) {x : String} {v : SVal}
+    (hx : isReserved x = false) (hl : lookup env x = some v) : ∃ gv, lookup genv x = some gv ∧ VRel bind v gv := by
+  induction genv generalizing env with
+  | nil =>
+    cases h
+    simp [Folang.Sem.lookup] at hl
+  | cons q genv ih =>
     cases h with
     | cons hv he =>
-      rename_i y v' gv' genv'
-      simp only [Folang.Sem.lookup, List.find?_cons] at hl ⊢
+      rename_i y v' gv' env'
       by_cases hxy : (y == x) = true
-      · simp only [hxy] at hl ⊢
-        simp only [Option.map_some, Option.some.injEq] at hl
+      · rw [lookup_cons_eq hxy] at hl ⊢
+        simp only [Option.some.injEq] at hl
         exact ⟨gv', rfl, hl ▸ hv⟩
-      · simp only [hxy] at hl ⊢
+      · have hxy' : (y == x) = false := by simpa using hxy
+        rw [lookup_cons_ne hxy'] at hl ⊢
         exact ih he hl
-
-theorem ERel.append {e1 : Env} {g1 : GEnv} {e2 : Env} {g2 : GEnv} (h1 : ERel e1 g1) (h2 : ERel e2 g2) :
-    ERel (e1 ++ e2) (g1 ++ g2) := by
-  induction e1 generalizing g1 with
-  | nil => cases h1; exact h2
-  | cons p e1 ih => cases h1 with | cons hv he => exact .cons hv (ih he)
-
-theorem ERel.reverse {e : Env} {g : GEnv} (h : ERel e g) : ERel e.reverse g.reverse := by
-  induction e generalizing g with
-  | nil => cases h; exact .nil
-  | cons p e ih =>
-    cases h with
-    | cons hv he =>
-      simp only [List.reverse_cons]
-      exact ERel.append (ih he) (.cons hv .nil)
-
-theorem ERel.zip {ps : List String} {vs : List SVal} {gvs : List GVal} (h : VRels vs gvs) :
-    ERel (ps.zip vs) (ps.zip gvs) := by
-  induction ps generalizing vs gvs with
-  | nil => simp; exact .nil
-  | cons p ps ih =>
-    cases h with
-    | nil => simp; exact .nil
-    | cons hv ht => simp only [List.zip_cons_cons]; exact .cons hv (ih ht)
+    | extra hr he =>
+      rename_i y gv'
+      have hxy : (y == x) = false := by
+        cases hyx : (y == x) with
+        | false => rfl
+        | true =>
+          simp only [beq_iff_eq] at hyx
+          subst hyx
+          rw [hr] at hx; cases hx
+      rw [lookup_cons_ne hxy]
+      exact ih he hl
 
 /-- the environment of a call: parameters bound to related arguments, over related closure environments -/
-theorem ERel.call {ps : List String} {vs : List SVal} {gvs : List GVal} {env : Env} {genv : GEnv}
-    (h : VRels vs gvs) (he : ERel env genv) : ERel ((ps.zip vs).reverse ++ env) ((ps.zip gvs).reverse ++ genv) :=
-  ERel.append (ERel.reverse (ERel.zip h)) he
+theorem ERel.call : ∀ {ps : List String} {vs : List SVal} {gvs : List GVal} {env : Env} {genv : GEnv},
+    VRels bind vs gvs → ERel bind env genv → ERel bind ((ps.zip vs).reverse ++ env) ((ps.zip gvs).reverse ++ genv) := by
+  intro ps
+  induction ps with
+  | nil => intro vs gvs env genv _ he; simpa using he
+  | cons p ps ih =>
+    intro vs gvs env genv h he
+    cases h with
+    | nil => simpa using he
+    | cons hv ht =>
+      simp only [List.zip_cons_cons, List.reverse_cons, List.append_assoc, List.singleton_append]
+      exact ih ht (.cons hv he)
 
-theorem VRels.fo (xs : List FO) : VRels (xs.map SVal.fo) (xs.map GVal.fo) := by
+theorem VRels.fo (xs : List FO) : VRels bind (xs.map SVal.fo) (xs.map GVal.fo) := by
   induction xs with
   | nil => exact .nil
   | cons x xs ih => exact .cons (.fo x) ih
